@@ -1,4 +1,5 @@
 import Model.Emit
+import Model.EmitQuote
 import Generated.C16CompileNodes
 import Drivers.Common
 /-! `vm_c16`: line protocol over `Model.Emit`, instantiated with the regenerated tables
@@ -11,6 +12,14 @@ import Drivers.Common
     → struct <type> node=<0|1> fields=<a,b> · ctor <type> <fn> fields=<a,b> · error <…> · crash
   facts
     → nodeNeedsTag=<b> ptrAssertUnchecked=<b> structs=<n> special=<n> scalars=<n> aux=<n>
+
+scalar cases (`Model.EmitQuote`; byte strings and texts in hex):
+  quote <hex>        → ok <hex of the text %q prints>      (every rune ≥ 0x80 taken as printable)
+  quotenp <hex>      → ok <hex>                             (no rune ≥ 0x80 taken as printable)
+  unquote <hex>      → ok <hex of the value of the Go string literal> · none
+  printed <k> <hex>  → ok <hex> · none   value of the literal after Generator.printf at indentation k
+  int <decimal>      → ok <hex of the text %d prints> <what Go reads back>
+  float <negzero|zero|posinf|neginf|nan> → ok <hex of the text goFloatLiteral writes>
 -/
 open Model.Emit
 
@@ -67,8 +76,57 @@ def emitStr (ty : String) (hn : Bool) (fields : List String) : String :=
   | .error e => "error " ++ errStr e
   | .crash => "crash"
 
+/-! scalar cases -/
+open Model.EmitQuote in
+def hexNib (c : Char) : Option Nat := hexVal c.toNat
+
+def hexToBytes : List Char → Option (List Nat)
+  | [] => some []
+  | [_] => none
+  | a :: b :: r =>
+    match hexNib a, hexNib b, hexToBytes r with
+    | some x, some y, some rest => some ((x * 16 + y) :: rest)
+    | _, _, _ => none
+
+def nibChar (n : Nat) : Char := Char.ofNat (Model.EmitQuote.hexDigit n)
+
+def bytesToHex (bs : List Nat) : String :=
+  String.ofList (bs.flatMap fun b => [nibChar (b / 16 % 16), nibChar (b % 16)])
+
+def okHex (o : Option (List Nat)) : String :=
+  match o with
+  | some v => "ok " ++ bytesToHex v
+  | none => "none"
+
+def withHex (h : String) (f : List Nat → String) : String :=
+  match hexToBytes h.toList with
+  | some bs => f bs
+  | none => "bad-hex"
+
+def floatCase (c : String) : String :=
+  let v : Option Model.EmitQuote.FloatV :=
+    if c == "negzero" then some (.zero true) else if c == "zero" then some (.zero false)
+    else if c == "posinf" then some (.inf false) else if c == "neginf" then some (.inf true)
+    else if c == "nan" then some .nan else none
+  match v with
+  | some v => "ok " ++ bytesToHex (Model.EmitQuote.showFloat true v)
+  | none => "bad-request"
+
 def handle (line : String) : String :=
   match line.splitOn " " with
+  | ["quote", h] => withHex h fun bs => okHex (some (Model.EmitQuote.quote (fun _ => true) bs))
+  | ["quote"] => okHex (some (Model.EmitQuote.quote (fun _ => true) []))
+  | ["quotenp", h] => withHex h fun bs => okHex (some (Model.EmitQuote.quote (fun _ => false) bs))
+  | ["quotenp"] => okHex (some (Model.EmitQuote.quote (fun _ => false) []))
+  | ["unquote", h] => withHex h fun bs => okHex (Model.EmitQuote.unquote bs)
+  | ["printed", k, h] => withHex h fun bs => okHex (Model.EmitQuote.printedValue k.toNat! bs)
+  | ["int", d] =>
+      match d.toInt? with
+      | some i =>
+        let t := Model.EmitQuote.showInt i
+        "ok " ++ bytesToHex t ++ " " ++ (match Model.EmitQuote.readInt t with | some j => toString j | none => "none")
+      | none => "bad-request"
+  | ["float", c] => floatCase c
   | ["path", ty] => pathStr ty
   | ["emit", ty, hn] => emitStr ty (hn == "1") []
   | ["emit", ty, hn, fs] => emitStr ty (hn == "1") (if fs == "" then [] else fs.splitOn ",")
